@@ -3,9 +3,9 @@ EXTENDS Identity
 E(k, v) == [k |-> k, v |-> v, sp |-> 0, sub |-> <<>>]
 S(k, v) == [k |-> k, v |-> v, sp |-> 0]
 EN(k, sub) == [k |-> k, v |-> 0, sp |-> 0, sub |-> sub]
-Nd(p, ps) == [proc |-> p, ps |-> ps, flow |-> FALSE, quoted |-> FALSE, sweep |-> NoSweep]
+Nd(p, ps) == [proc |-> p, ps |-> ps, flow |-> FALSE, quoted |-> FALSE, alias |-> 0, sweep |-> NoSweep]
 Sw(el, vals, mode, bc, expr) ==
-    [proc |-> el, ps |-> <<>>, flow |-> FALSE, quoted |-> FALSE,
+    [proc |-> el, ps |-> <<>>, flow |-> FALSE, quoted |-> FALSE, alias |-> 0,
      sweep |-> [on |-> TRUE, vname |-> "t", vals |-> vals, ints |-> FALSE, ctx2 |-> FALSE, vorder |-> FALSE, mode |-> mode, bc |-> bc, expr |-> expr, coll |-> "FloatDataCollection", el |-> el]]
 Seed1 == << Nd("FloatValueDataSource", <<E("value", 1)>>),
             Nd("FloatMultiplyOperation", <<E("factor", 3)>>),
@@ -17,5 +17,8 @@ Seed3 == << Nd("FloatValueDataSource", <<E("value", 1)>>),
 Seed4 == << Sw("FloatValueDataSource", <<2, 3, 4>>, "by_position", TRUE, <<"-", <<"t">>, <<"c", 1>>>>) >>
 Seed5 == << [Sw("FloatValueDataSource", <<1, 2>>, "combinatorial", FALSE, <<"*", <<"t">>, <<"c", 2>>>>) EXCEPT !.sweep.ctx2 = TRUE] >>
 Seed6 == << [Sw("FloatValueDataSource", <<2, 3>>, "combinatorial", FALSE, <<"+", <<"t">>, <<"c", 1>>>>) EXCEPT !.sweep.vname = "expr"] >>
-AllSeeds == {Seed1, Seed2, Seed3, Seed4, Seed5, Seed6}
+\* two equal sweep nodes around a reduction: candidates for a YAML anchor/alias pair
+SwM == Sw("FloatMultiplyOperation", <<2, 3>>, "combinatorial", FALSE, <<"t">>)
+Seed7 == << Nd("FloatValueDataSource", <<E("value", 1)>>), SwM, Nd("FloatCollectionSumOperation", <<>>), SwM >>
+AllSeeds == {Seed1, Seed2, Seed3, Seed4, Seed5, Seed6, Seed7}
 =============================================================================
